@@ -2,6 +2,7 @@ from typing import TYPE_CHECKING
 
 from pyteal.errors import TealInputError
 from pyteal.types import TealType
+from pyteal.util import escapeStr
 from pyteal.ir import TealOp, Op, TealBlock
 
 from pyteal.ast.leafexpr import LeafExpr
@@ -29,7 +30,7 @@ class MethodSignature(LeafExpr):
         self.methodName = methodName
 
     def __teal__(self, options: "CompileOptions"):
-        op = TealOp(self, Op.method_signature, '"{}"'.format(self.methodName))
+        op = TealOp(self, Op.method_signature, escapeStr(self.methodName))
         return TealBlock.FromOp(options, op)
 
     def __str__(self) -> str:
